@@ -249,6 +249,12 @@ def groupAbs2 {n k : Nat} (grp : Fin n → Fin k) (x : CVec α n) (g : Fin k) : 
 def huberOf (δ r : α) : α :=
   if δ < r then δ * (r - δ / two) else (1 / two) * (r * r)
 
+/-- non-separable Huber norm as a function of the *squared* l2 norm `s = Σ|xᵢ|²`, as the code
+    writes it since the repair of the NaN gradient at the origin:
+    `lax.cond(sqrt(s) <= δ, 0.5*s, δ*(sqrt(s) − δ/2))` -/
+def huberNonsepOf (δ s : α) : α :=
+  if δ < HasSqrt.sqrt s then δ * (HasSqrt.sqrt s - δ / two) else (1 / two) * s
+
 /-- `__call__` -/
 def Fn.eval : {n : Nat} → Fn α n → CVec α n → α
   | _, .zero, _ => 0
@@ -256,7 +262,7 @@ def Fn.eval : {n : Nat} → Fn α n → CVec α n → α
   | _, .l2, x => norm2 x
   | _, .l1, x => Vec.sum (fun i => Cx.abs (x i))
   | _, .huber δ true, x => Vec.sum (fun i => huberOf δ (Cx.abs (x i)))
-  | _, .huber δ false, x => huberOf δ (norm2 x)
+  | _, .huber δ false, x => huberNonsepOf δ (sumAbs2 x)
   | _, .l1ml2 β, x => Vec.sum (fun i => Cx.abs (x i)) - β * norm2 x
   | _, .l21 _ grp, x => Vec.sum (fun g => HasSqrt.sqrt (groupAbs2 grp x g))
   | _, .scaled c f, x => c * f.eval x
@@ -271,8 +277,8 @@ def Fn.eval : {n : Nat} → Fn α n → CVec α n → α
 /-- What `jax.grad(self.__call__)(x)` returns (JAX convention: for a real-valued function of a
     complex argument it is `∂f/∂Re − i ∂f/∂Im`, obtained by propagating the cotangent `1` backwards
     with plain transposes; `where`/`cond` select the branch taken at `x`).
-    Singular points are kept as JAX produces them: `conj x / ‖x‖` is `0/0` at `x = 0`, also in
-    the inner branch of the non-separable Huber norm (`‖x‖·(conj x/‖x‖)`). -/
+    Singular points are kept as JAX produces them: `conj x / ‖x‖` is `0/0` at `x = 0`.  The inner
+    branch of the non-separable Huber norm is `0.5·Σ|xᵢ|²`, whose cotangent is `conj x` (no division). -/
 def Fn.jaxGrad : {n : Nat} → Fn α n → CVec α n → CVec α n
   | _, .zero, _ => fun _ => 0
   | _, .sqL2, x => fun i => Cx.smul two (x i).conj
@@ -281,7 +287,7 @@ def Fn.jaxGrad : {n : Nat} → Fn α n → CVec α n → CVec α n
   | _, .huber δ true, x => fun i =>
       if δ < Cx.abs (x i) then Cx.smul δ (Cx.divr (x i).conj (Cx.abs (x i))) else (x i).conj
   | _, .huber δ false, x => fun i =>
-      Cx.smul (if δ < norm2 x then δ else norm2 x) (Cx.divr (x i).conj (norm2 x))
+      if δ < norm2 x then Cx.smul δ (Cx.divr (x i).conj (norm2 x)) else (x i).conj
   | _, .l1ml2 β, x => fun i =>
       Cx.divr (x i).conj (Cx.abs (x i)) - Cx.smul β (Cx.divr (x i).conj (norm2 x))
   | _, .l21 _ grp, x => fun i => Cx.divr (x i).conj (HasSqrt.sqrt (groupAbs2 grp x (grp i)))
@@ -296,14 +302,22 @@ def Fn.jaxGrad : {n : Nat} → Fn α n → CVec α n → CVec α n
       vsmul s (mulVec (transpose A)
         (fun i => Cx.smul (-(two * two * w i * (y i - Cx.abs2 (mulVec A x i)))) (mulVec A x i).conj))
 
-/-- JAX gradient of the non-separable Huber norm when the inner branch is written on the squared
-    norm (`0.5 * sum(abs(x)**2)`, proposed repair `fixes/huber-nonsep-grad-at-zero.patch`): no
-    division in the inner branch, so finite (and correct) at `x = 0` too. -/
-def huberNonsepSafeJaxGrad {n : Nat} (δ : α) (x : CVec α n) : CVec α n := fun i =>
-  if δ < norm2 x then Cx.smul δ (Cx.divr (x i).conj (norm2 x)) else (x i).conj
+/-- JAX gradient of the non-separable Huber norm as the code stood *before* the repair
+    (`norm(x)` then `cond(xl2 <= δ, 0.5*xl2**2, …)`): the inner branch is `‖x‖·(conj x/‖x‖)`, which is
+    `0·(0/0)` at `x = 0` (finding `huber-nonsep-grad-at-zero`, repaired by /repo commit 7a3a18a). -/
+def huberNonsepOldJaxGrad {n : Nat} (δ : α) (x : CVec α n) : CVec α n := fun i =>
+  Cx.smul (if δ < norm2 x then δ else norm2 x) (Cx.divr (x i).conj (norm2 x))
 
 /-- `Functional.grad(x) = self._grad(x)` with `self._grad = scico.grad(self.__call__)` -/
 def Fn.grad {n : Nat} (f : Fn α n) (x : CVec α n) : CVec α n := scicoGrad (f.jaxGrad x)
+
+/-- drop the imaginary parts -/
+def realPart {n : Nat} (v : CVec α n) : CVec α n := fun i => ⟨(v i).re, 0⟩
+
+/-- `grad` for a *real* argument array while operators / data inside the functional are complex:
+    JAX returns a cotangent of the argument's dtype, i.e. the real part (the conjugation of
+    `scico.grad` is then the identity) -/
+def Fn.gradRealArg {n : Nat} (f : Fn α n) (x : CVec α n) : CVec α n := scicoGrad (realPart (f.jaxGrad x))
 
 /-- `f * c`, `c * f` (`__mul__`/`__rmul__`): class-directed dispatch —
     `ScaledFunctional.__mul__` folds the factor into the existing scale (`other * self.scale`),
